@@ -70,10 +70,35 @@ fn program_for(c: &Case) -> (Built, Vec<u8>) {
 }
 
 fn commands_for(c: &Case, p: &Prog) -> (Vec<Cmd>, Vec<u8>) {
+    let (mut cmds, aliases) = commands_for_raw(c, p);
+    // `step out` right after the PC was moved by hand is outside C10/C11's statements (which
+    // instruction "the" return is judged on is unspecified there): make it a single step
+    // (lace judges it on the instruction that was at the PC before the move)
+    let mut moved = false;
+    for c in cmds.iter_mut() {
+        match c {
+            Cmd::Goto(_) | Cmd::Reset => moved = true,
+            Cmd::StepOut if moved => {
+                *c = Cmd::StepInto(Some(1));
+                moved = false;
+            }
+            c if c.is_resuming() => moved = false,
+            _ => {}
+        }
+    }
+    (cmds, aliases)
+}
+
+fn commands_for_raw(c: &Case, p: &Prog) -> (Vec<Cmd>, Vec<u8>) {
     match c {
         Case::Generated { cmds, .. } => (
             cmds.iter()
-                .map(|r| match r.kind % 20 {
+                .map(|r| match r.kind % 24 {
+                    // moving the PC while paused: the breakpoint must still fire when control
+                    // comes back to it
+                    20 | 21 => Cmd::Goto(make_loc(p, r.a, r.b, r.c, LocMode::Code)),
+                    22 => Cmd::Reset,
+                    23 => Cmd::Continue,
                     16 | 17 => Cmd::BreakList,
                     // extra weight on removing an existing (possibly predefined) breakpoint
                     18 if !p.breaks.is_empty() => Cmd::BreakRemove(crate::refdbg::Loc::Abs(p.breaks[(r.b as usize * p.breaks.len()) >> 16], 0)),
@@ -264,7 +289,7 @@ impl Prop for C11 {
         "C11"
     }
     fn rule(&self) -> &'static str {
-        "ProgGen programs with `.break` directives sprinkled by the generator plus 0-3 extra placements at any line position (before the first statement / .orig, between any two, after the last, doubled, on a labelled line), at default and non-default origins x histories of 1-13 commands over every resuming command, break add/remove (absolute, label+-offset, ^offset; extra weight on removing predefined ones) and break list; plus the one-instruction loop `F call F` with a breakpoint on it. \
+        "ProgGen programs with `.break` directives sprinkled by the generator plus 0-3 extra placements at any line position (before the first statement / .orig, between any two, after the last, doubled, on a labelled line), at default and non-default origins x histories of 1-13 commands over every resuming command, break add/remove (absolute, label+-offset, ^offset; extra weight on removing predefined ones), break list, and the commands that move the PC while paused (goto, reset); plus the one-instruction loop `F call F` with a breakpoint on it. \
          Oracle: RefDbg — pause before the marked instruction, resuming executes it once, it fires again on the next arrival (also when that is the very next instruction), removed breakpoints never pause: registers/PC/CC after every command, full final snapshot, executed-instruction count; `.break` occupies no memory (image equals the encoding without it) and marks the next statement (addresses recorded by the assembler); every `break list` equals the model's sorted duplicate-free list. \
          Non-trivial: a breakpoint is hit at least twice in the session, or a predefined breakpoint is removed and execution continues. Distinct = hash(source, script, input)."
     }
